@@ -47,8 +47,31 @@ var hotTurtle = []string{
 }
 var hotNQ = []string{"<", ">", "\"", "\\", " ", "\t", "\r", "\n", ".", "_", ":", "_:", "@", "^", "^^", "#", "-", "u", "U", "\\u0041", "\\U0010FFFF", "\\uD800", "{", "}", "|", "`", "\x00", "\x7f", "\xc3", "\xf0\x9f", "<http://e/>", "<rel>", "_:b", "\"x\"@en", "\"x\"^^<a:t>", "@en-"}
 
+const (
+	nsLangString    = "http://www.w3.org/1999/02/22-rdf-syntax-ns#langString"
+	nsDirLangString = "http://www.w3.org/1999/02/22-rdf-syntax-ns#dirLangString"
+)
+
+// hotTyped: the datatype IRIs of (directional) language-tagged strings, written the way each format
+// lets a document choose a datatype: a literal typed like that explicitly would have no tag (C06).
+func hotTyped(format string) []string {
+	switch format {
+	case "jsonld", "htmljsonld":
+		return []string{`"@type":"` + nsLangString + `"`, `"@type":"` + nsDirLangString + `"`, `{"@value":"x","@type":"` + nsLangString + `"}`, `"` + nsLangString + `"`}
+	case "rdfjson":
+		return []string{`"datatype":"` + nsLangString + `"`, `"datatype":"` + nsDirLangString + `"`}
+	case "rdfxml":
+		return []string{` rdf:datatype="` + nsLangString + `"`, ` rdf:datatype="` + nsDirLangString + `"`, ` rdf:ID=''`, ` rdf:ID = "1"`, ` rdf:nodeID='a b'`}
+	case "ttl", "trig":
+		return []string{`^^<` + nsLangString + `>`, `^^<` + nsDirLangString + `>`, `^^rdf:langString`, `"x"^^<` + nsLangString + `>`}
+	case "nt", "nq":
+		return []string{`^^<` + nsLangString + `>`, `^^<` + nsDirLangString + `>`, `"x"^^<` + nsDirLangString + `>`}
+	}
+	return []string{` datatype="rdf:langString"`, ` datatype="` + nsDirLangString + `"`, ` datatype="` + nsLangString + `" lang="en"`}
+}
+
 func hotFor(format string) []string {
-	return append(hotOf(format), "\xef\xbb\xbf", "\u00a0", "\u2028")
+	return append(append(hotOf(format), "\xef\xbb\xbf", "\u00a0", "\u2028"), hotTyped(format)...)
 }
 
 func hotOf(format string) []string {
@@ -128,41 +151,97 @@ func mutate(r *vh.Rng, b []byte, hot []string) []byte {
 // ---------------------------------------------------------------- nesting
 
 type nestGen struct {
-	Name string
-	F    func(depth int) []byte
+	Name   string
+	F      func(depth int) []byte
+	Params []int // when set: the parameters to use instead of the tier's depth list (all run in the quick tier)
 }
 
 func rep(s string, n int) string { return strings.Repeat(s, n) }
+
+func itemrefClique(k int, itemid, itemprop bool) []byte {
+	var sb strings.Builder
+	sb.WriteString("<!DOCTYPE html><html><body>\n")
+	for i := 0; i < k; i++ {
+		var refs []string
+		for j := 0; j < k; j++ {
+			if j != i {
+				refs = append(refs, fmt.Sprintf("i%d", j))
+			}
+		}
+		fmt.Fprintf(&sb, `<div id="i%d" itemscope`, i)
+		if itemid {
+			fmt.Fprintf(&sb, ` itemid="http://example.com/%d"`, i)
+		}
+		if itemprop {
+			sb.WriteString(` itemprop="p"`)
+		}
+		fmt.Fprintf(&sb, ` itemref="%s"><span itemprop="n">%d</span></div>`+"\n", strings.Join(refs, " "), i)
+	}
+	sb.WriteString("</body></html>\n")
+	return []byte(sb.String())
+}
 
 var nestGens = map[string][]nestGen{
 	"jsonld": {
 		{"object-chain", func(n int) []byte {
 			return []byte(`{"@context":{"p":"http://e/p"},"@id":"http://e/s","p":` + rep(`{"p":`, n) + `"x"` + rep(`}`, n) + `}`)
-		}},
-		{"array-chain", func(n int) []byte { return []byte(`{"http://e/p":` + rep(`[`, n) + `1` + rep(`]`, n) + `}`) }},
+		}, nil},
+		{"object-chain-ids", func(n int) []byte {
+			var sb strings.Builder
+			sb.WriteString(`{"@context":{"p":"http://e/p"},"@id":"http://e/s"`)
+			for i := 0; i < n; i++ {
+				fmt.Fprintf(&sb, `,"p":{"@id":"http://e/n%d","@type":"http://e/T"`, i)
+			}
+			sb.WriteString(rep(`}`, n) + `}`)
+			return []byte(sb.String())
+		}, nil},
+		{"id-clique", func(k int) []byte {
+			var sb strings.Builder
+			sb.WriteString(`{"@context":{"p":{"@id":"http://e/p","@type":"@id"}},"@graph":[`)
+			for i := 0; i < k; i++ {
+				if i > 0 {
+					sb.WriteString(",")
+				}
+				fmt.Fprintf(&sb, `{"@id":"http://e/%d","p":[`, i)
+				first := true
+				for j := 0; j < k; j++ {
+					if j != i {
+						if !first {
+							sb.WriteString(",")
+						}
+						first = false
+						fmt.Fprintf(&sb, `"http://e/%d"`, j)
+					}
+				}
+				sb.WriteString(`]}`)
+			}
+			sb.WriteString(`]}`)
+			return []byte(sb.String())
+		}, []int{4, 8, 12, 14}},
+		{"array-chain", func(n int) []byte { return []byte(`{"http://e/p":` + rep(`[`, n) + `1` + rep(`]`, n) + `}`) }, nil},
 		{"list-chain", func(n int) []byte {
 			return []byte(`{"@id":"http://e/s","http://e/p":` + rep(`{"@list":[`, n) + `1` + rep(`]}`, n) + `}`)
-		}},
+		}, nil},
 		{"graph-chain", func(n int) []byte {
 			return []byte(rep(`{"@id":"http://e/g","@graph":[`, n) + `{"@id":"http://e/s","http://e/p":1}` + rep(`]}`, n))
-		}},
+		}, nil},
 		{"context-chain", func(n int) []byte {
 			return []byte(`{"@context":` + rep(`[`, n) + `{"p":"http://e/p"}` + rep(`]`, n) + `,"p":1}`)
-		}},
+		}, nil},
 		{"scoped-context-chain", func(n int) []byte {
 			return []byte(`{"@context":` + rep(`{"p":{"@id":"http://e/p","@context":`, n) + `{}` + rep(`}}`, n) + `,"p":` + rep(`{"p":`, n%50) + `1` + rep(`}`, n%50) + `}`)
-		}},
+		}, nil},
 		{"nest-chain", func(n int) []byte {
 			return []byte(`{"@context":{"@version":1.1,"n":"@nest","p":"http://e/p"},"n":` + rep(`{"n":`, n) + `{"p":1}` + rep(`}`, n) + `}`)
-		}},
+		}, nil},
 		{"included-chain", func(n int) []byte {
 			return []byte(rep(`{"@included":[`, n) + `{"@id":"http://e/s","http://e/p":1}` + rep(`]}`, n))
-		}},
+		}, nil},
 		{"reverse-chain", func(n int) []byte {
 			return []byte(rep(`{"@id":"http://e/s","@reverse":{"http://e/p":`, n) + `{"@id":"http://e/o"}` + rep(`}}`, n))
-		}},
-		{"unclosed-objects", func(n int) []byte { return []byte(rep(`{"a":`, n)) }},
-		{"unclosed-arrays", func(n int) []byte { return []byte(rep(`[`, n)) }},
+		}, nil},
+		{"unclosed-objects", func(n int) []byte { return []byte(rep(`{"a":`, n)) }, nil},
+		{"unclosed-arrays", func(n int) []byte { return []byte(rep(`[`, n)) }, nil},
 		{"wide-object", func(n int) []byte {
 			var sb strings.Builder
 			sb.WriteString(`{"@context":{"@vocab":"http://e/"}`)
@@ -171,7 +250,7 @@ var nestGens = map[string][]nestGen{
 			}
 			sb.WriteString(`}`)
 			return []byte(sb.String())
-		}},
+		}, nil},
 		{"wide-context", func(n int) []byte {
 			var sb strings.Builder
 			sb.WriteString(`{"@context":{"t0":"http://e/t0"`)
@@ -180,16 +259,16 @@ var nestGens = map[string][]nestGen{
 			}
 			fmt.Fprintf(&sb, `},"t%d":1}`, n-1)
 			return []byte(sb.String())
-		}},
+		}, nil},
 	},
 	"rdfjson": {
 		{"array-chain", func(n int) []byte {
 			return []byte(`{"http://e/s":{"http://e/p":[{"type":"literal","value":"v","x":` + rep(`[`, n) + rep(`]`, n) + `}]}}`)
-		}},
+		}, nil},
 		{"object-chain", func(n int) []byte {
 			return []byte(`{"http://e/s":` + rep(`{"http://e/p":`, n) + `1` + rep(`}`, n) + `}`)
-		}},
-		{"unclosed", func(n int) []byte { return []byte(rep(`{"a":[`, n)) }},
+		}, nil},
+		{"unclosed", func(n int) []byte { return []byte(rep(`{"a":[`, n)) }, nil},
 		{"wide", func(n int) []byte {
 			var sb strings.Builder
 			sb.WriteString(`{"http://e/s":{"http://e/p":[`)
@@ -201,50 +280,59 @@ var nestGens = map[string][]nestGen{
 			}
 			sb.WriteString(`]}}`)
 			return []byte(sb.String())
-		}},
+		}, nil},
 	},
 	"rdfxml": {
 		{"node-property-chain", func(n int) []byte {
 			return []byte(xmlHead + rep(`<rdf:Description><e:p>`, n) + `<rdf:Description rdf:about="http://e/o"/>` + rep(`</e:p></rdf:Description>`, n) + `</rdf:RDF>`)
-		}},
+		}, nil},
+		{"node-property-chain-about", func(n int) []byte {
+			var sb strings.Builder
+			sb.WriteString(xmlHead)
+			for i := 0; i < n; i++ {
+				fmt.Fprintf(&sb, `<rdf:Description rdf:about="http://e/n%d"><e:p rdf:ID="r%d">`, i, i)
+			}
+			sb.WriteString(`<rdf:Description rdf:about="http://e/o"/>` + rep(`</e:p></rdf:Description>`, n) + `</rdf:RDF>`)
+			return []byte(sb.String())
+		}, nil},
 		{"parsetype-resource-chain", func(n int) []byte {
 			return []byte(xmlHead + `<rdf:Description rdf:about="http://e/s">` + rep(`<e:p rdf:parseType="Resource">`, n) + `<e:q>v</e:q>` + rep(`</e:p>`, n) + `</rdf:Description></rdf:RDF>`)
-		}},
+		}, nil},
 		{"parsetype-literal-deep", func(n int) []byte {
 			return []byte(xmlHead + `<rdf:Description rdf:about="http://e/s"><e:p rdf:parseType="Literal">` + rep(`<x a="1">`, n) + `t` + rep(`</x>`, n) + `</e:p></rdf:Description></rdf:RDF>`)
-		}},
+		}, nil},
 		{"collection-chain", func(n int) []byte {
 			return []byte(xmlHead + `<rdf:Description rdf:about="http://e/s">` + rep(`<e:p rdf:parseType="Collection"><rdf:Description>`, n) + rep(`</rdf:Description></e:p>`, n) + `</rdf:Description></rdf:RDF>`)
-		}},
-		{"unclosed", func(n int) []byte { return []byte(xmlHead + rep(`<rdf:Description><e:p>`, n)) }},
+		}, nil},
+		{"unclosed", func(n int) []byte { return []byte(xmlHead + rep(`<rdf:Description><e:p>`, n)) }, nil},
 		{"wide-collection", func(n int) []byte {
 			return []byte(xmlHead + `<rdf:Description rdf:about="http://e/s"><e:p rdf:parseType="Collection">` + rep(`<rdf:Description rdf:about="http://e/i"/>`, n) + `</e:p>` + rep(`<rdf:li>x</rdf:li>`, n) + `</rdf:Description></rdf:RDF>`)
-		}},
+		}, nil},
 		{"xmlbase-chain", func(n int) []byte {
 			// absolute bases: a relative xml:base would make every IRI grow with the depth (quadratic *output*)
 			return []byte(xmlHead + rep(`<rdf:Description xml:base="http://b/a/" rdf:about="x"><e:p>`, n) + `<rdf:Description rdf:ID="i"/>` + rep(`</e:p></rdf:Description>`, n) + `</rdf:RDF>`)
-		}},
+		}, nil},
 	},
 	"ttl": {
-		{"bnode-plist-chain", func(n int) []byte { return []byte(ttlHead + `:s :p ` + rep(`[ :p `, n) + `1` + rep(` ]`, n) + " .\n") }},
-		{"collection-chain", func(n int) []byte { return []byte(ttlHead + `:s :p ` + rep(`( `, n) + `1` + rep(` )`, n) + " .\n") }},
+		{"bnode-plist-chain", func(n int) []byte { return []byte(ttlHead + `:s :p ` + rep(`[ :p `, n) + `1` + rep(` ]`, n) + " .\n") }, nil},
+		{"collection-chain", func(n int) []byte { return []byte(ttlHead + `:s :p ` + rep(`( `, n) + `1` + rep(` )`, n) + " .\n") }, nil},
 		{"mixed-chain", func(n int) []byte {
 			return []byte(ttlHead + `:s :p ` + rep(`[ :p ( `, n) + `1` + rep(` ) ]`, n) + " .\n")
-		}},
-		{"subject-collection-chain", func(n int) []byte { return []byte(ttlHead + rep(`( `, n) + rep(` )`, n) + " :p 1 .\n") }},
-		{"unclosed", func(n int) []byte { return []byte(ttlHead + `:s :p ` + rep(`[ :p ( `, n)) }},
-		{"wide-object-list", func(n int) []byte { return []byte(ttlHead + `:s :p 1` + rep(`, 1`, n) + rep(`; :q "x"`, n) + " .\n") }},
+		}, nil},
+		{"subject-collection-chain", func(n int) []byte { return []byte(ttlHead + rep(`( `, n) + rep(` )`, n) + " :p 1 .\n") }, nil},
+		{"unclosed", func(n int) []byte { return []byte(ttlHead + `:s :p ` + rep(`[ :p ( `, n)) }, nil},
+		{"wide-object-list", func(n int) []byte { return []byte(ttlHead + `:s :p 1` + rep(`, 1`, n) + rep(`; :q "x"`, n) + " .\n") }, nil},
 	},
 	"html": {
 		{"div-chain-rdfa", func(n int) []byte {
 			return []byte(`<html><body vocab="http://v/">` + rep(`<div typeof="T" property="p">`, n) + `x` + rep(`</div>`, n) + `</body></html>`)
-		}},
+		}, nil},
 		{"div-chain-rel", func(n int) []byte {
 			return []byte(`<html><body prefix="e: http://e/">` + rep(`<div rel="e:p"><span about="_:a">`, n) + `x` + rep(`</span></div>`, n) + `</body></html>`)
-		}},
+		}, nil},
 		{"itemscope-chain", func(n int) []byte {
 			return []byte(`<html><body>` + rep(`<div itemprop="p" itemscope itemtype="http://schema.org/T">`, n) + `x` + rep(`</div>`, n) + `</body></html>`)
-		}},
+		}, nil},
 		{"itemref-fan", func(n int) []byte {
 			var sb strings.Builder
 			sb.WriteString(`<html><body><div itemscope itemref="`)
@@ -257,19 +345,61 @@ var nestGens = map[string][]nestGen{
 			}
 			sb.WriteString(`</body></html>`)
 			return []byte(sb.String())
-		}},
+		}, nil},
+		{"itemscope-chain-itemid", func(n int) []byte {
+			var sb strings.Builder
+			sb.WriteString(`<html><body>`)
+			for i := 0; i < n; i++ {
+				fmt.Fprintf(&sb, `<div itemprop="p" itemscope itemid="http://e/i%d" itemtype="http://schema.org/T" about="http://e/a%d" property="http://e/p">`, i, i)
+			}
+			sb.WriteString(`x` + rep(`</div>`, n) + `</body></html>`)
+			return []byte(sb.String())
+		}, nil},
+		{"itemref-fan-itemid", func(n int) []byte {
+			var sb strings.Builder
+			sb.WriteString(`<html><body><div itemscope itemid="http://e/root" itemref="`)
+			for i := 0; i < n; i++ {
+				fmt.Fprintf(&sb, "i%d ", i)
+			}
+			sb.WriteString(`">x</div>`)
+			for i := 0; i < n; i++ {
+				fmt.Fprintf(&sb, `<p id="i%d" itemprop="p" itemscope itemid="http://e/i%d" itemref="i%d">v</p>`, i, i, (i+1)%n)
+			}
+			sb.WriteString(`</body></html>`)
+			return []byte(sb.String())
+		}, nil},
+		// k items, each naming all the others in @itemref: every item must be expanded once, however many
+		// itemref paths lead to it (k! paths). Small k on purpose: a factorial blow-up shows at k ≈ 10.
+		{"itemref-clique", func(k int) []byte { return itemrefClique(k, false, false) }, []int{4, 6, 8, 9, 10, 11, 12, 14}},
+		{"itemref-clique-itemid", func(k int) []byte { return itemrefClique(k, true, false) }, []int{4, 6, 8, 9, 10, 11, 12, 14}},
+		{"itemref-clique-itemid-itemprop", func(k int) []byte { return itemrefClique(k, true, true) }, []int{4, 6, 8, 9, 10, 11, 12, 14}},
+		{"about-clique-rdfa", func(k int) []byte {
+			var sb strings.Builder
+			sb.WriteString(`<html><body vocab="http://v/">`)
+			for i := 0; i < k; i++ {
+				fmt.Fprintf(&sb, `<div about="http://e/%d" typeof="rdfa:Pattern T">`, i)
+				for j := 0; j < k; j++ {
+					if j != i {
+						fmt.Fprintf(&sb, `<link property="rdfa:copy" href="http://e/%d"/><a rel="p" href="http://e/%d">x</a>`, j, j)
+					}
+				}
+				sb.WriteString(`</div>`)
+			}
+			sb.WriteString(`</body></html>`)
+			return []byte(sb.String())
+		}, []int{4, 6, 8, 10, 12, 14}},
 		{"inlist-wide", func(n int) []byte {
 			return []byte(`<html><body vocab="http://v/" about="#s">` + rep(`<span property="p" inlist="">x</span>`, n) + `</body></html>`)
-		}},
+		}, nil},
 		{"unclosed-mixed", func(n int) []byte {
 			return []byte(`<html><body>` + rep(`<div typeof="T" itemscope><table><tr><td><a rel="r" href="h">`, n))
-		}},
+		}, nil},
 		{"script-jsonld-deep", func(n int) []byte {
 			return []byte(`<html><head><script type="application/ld+json">{"http://e/p":` + rep(`{"http://e/p":`, n) + `1` + rep(`}`, n) + `}</script></head></html>`)
-		}},
+		}, nil},
 		{"many-scripts", func(n int) []byte {
 			return []byte(`<html><head>` + rep(`<script type="application/ld+json">{"@id":"http://e/s","http://e/p":1}</script>`, n) + `</head></html>`)
-		}},
+		}, nil},
 		{"pattern-copy-chain", func(n int) []byte {
 			var sb strings.Builder
 			sb.WriteString(`<html><body vocab="http://v/"><div typeof="T"><link property="rdfa:copy" href="#p0"/></div>`)
@@ -278,7 +408,7 @@ var nestGens = map[string][]nestGen{
 			}
 			sb.WriteString(`</body></html>`)
 			return []byte(sb.String())
-		}},
+		}, nil},
 	},
 }
 
@@ -287,116 +417,117 @@ const ttlHead = "@prefix : <http://e/> .\n"
 
 func init() {
 	nestGens["trig"] = append(append([]nestGen{}, nestGens["ttl"]...),
-		nestGen{"graph-braces", func(n int) []byte { return []byte(ttlHead + rep(`{ `, n) + `:s :p 1` + rep(` }`, n)) }},
-		nestGen{"graph-many", func(n int) []byte { return []byte(ttlHead + rep(":g { :s :p [ :q 1 ] } \n", n)) }})
+		nestGen{"graph-braces", func(n int) []byte { return []byte(ttlHead + rep(`{ `, n) + `:s :p 1` + rep(` }`, n)) }, nil},
+		nestGen{"graph-many", func(n int) []byte { return []byte(ttlHead + rep(":g { :s :p [ :q 1 ] } \n", n)) }, nil})
 	for _, f := range []string{"rdfa", "microdata", "htmljsonld"} {
 		nestGens[f] = nestGens["html"]
 	}
-	nestGens["nt"] = []nestGen{{"many-lines", func(n int) []byte { return bytes.Repeat([]byte("<http://e/s> <http://e/p> \"x\" .\n"), n) }}}
-	nestGens["nq"] = []nestGen{{"many-lines", func(n int) []byte { return bytes.Repeat([]byte("<http://e/s> <http://e/p> _:b <http://e/g> .\n"), n) }}}
+	nestGens["nt"] = []nestGen{{"many-lines", func(n int) []byte { return bytes.Repeat([]byte("<http://e/s> <http://e/p> \"x\" .\n"), n) }, nil}}
+	nestGens["nq"] = []nestGen{{"many-lines", func(n int) []byte { return bytes.Repeat([]byte("<http://e/s> <http://e/p> _:b <http://e/g> .\n"), n) }, nil}}
 }
 
 // ---------------------------------------------------------------- huge tokens
 
 type hugeGen struct {
-	Name string
-	F    func(size int) []byte
+	Name   string
+	F      func(size int) []byte
+	Params []int // reserved (same literal shape as nestGen)
 }
 
 func big(c string, n int) string { return strings.Repeat(c, n/len(c)+1)[:n] }
 
 var hugeGens = map[string][]hugeGen{
 	"jsonld": {
-		{"string-value", func(n int) []byte { return []byte(`{"http://e/p":"` + big("a", n) + `"}`) }},
-		{"key", func(n int) []byte { return []byte(`{"http://e/` + big("k", n) + `":1}`) }},
-		{"number", func(n int) []byte { return []byte(`{"http://e/p":` + big("9", n) + `}`) }},
-		{"escapes", func(n int) []byte { return []byte(`{"http://e/p":"` + big(`\u00e9`, n) + `"}`) }},
-		{"whitespace", func(n int) []byte { return []byte(`{` + big(" ", n) + `"http://e/p":1}`) }},
-		{"id", func(n int) []byte { return []byte(`{"@id":"http://e/` + big("i", n) + `","http://e/p":1}`) }},
+		{"string-value", func(n int) []byte { return []byte(`{"http://e/p":"` + big("a", n) + `"}`) }, nil},
+		{"key", func(n int) []byte { return []byte(`{"http://e/` + big("k", n) + `":1}`) }, nil},
+		{"number", func(n int) []byte { return []byte(`{"http://e/p":` + big("9", n) + `}`) }, nil},
+		{"escapes", func(n int) []byte { return []byte(`{"http://e/p":"` + big(`\u00e9`, n) + `"}`) }, nil},
+		{"whitespace", func(n int) []byte { return []byte(`{` + big(" ", n) + `"http://e/p":1}`) }, nil},
+		{"id", func(n int) []byte { return []byte(`{"@id":"http://e/` + big("i", n) + `","http://e/p":1}`) }, nil},
 		{"language", func(n int) []byte {
 			return []byte(`{"http://e/p":{"@value":"v","@language":"` + big("en-", n) + `x"}}`)
-		}},
-		{"unterminated-string", func(n int) []byte { return []byte(`{"http://e/p":"` + big("a", n)) }},
+		}, nil},
+		{"unterminated-string", func(n int) []byte { return []byte(`{"http://e/p":"` + big("a", n)) }, nil},
 	},
 	"rdfjson": {
 		{"string-value", func(n int) []byte {
 			return []byte(`{"http://e/s":{"http://e/p":[{"type":"literal","value":"` + big("a", n) + `"}]}}`)
-		}},
+		}, nil},
 		{"subject", func(n int) []byte {
 			return []byte(`{"http://e/` + big("s", n) + `":{"http://e/p":[{"type":"uri","value":"http://e/o"}]}}`)
-		}},
+		}, nil},
 		{"bnode", func(n int) []byte {
 			return []byte(`{"_:` + big("b", n) + `":{"http://e/p":[{"type":"bnode","value":"_:` + big("c", n) + `"}]}}`)
-		}},
+		}, nil},
 	},
 	"rdfxml": {
 		{"text", func(n int) []byte {
 			return []byte(xmlHead + `<rdf:Description rdf:about="http://e/s"><e:p>` + big("t", n) + `</e:p></rdf:Description></rdf:RDF>`)
-		}},
+		}, nil},
 		{"attr", func(n int) []byte {
 			return []byte(xmlHead + `<rdf:Description rdf:about="http://e/` + big("a", n) + `"><e:p>v</e:p></rdf:Description></rdf:RDF>`)
-		}},
+		}, nil},
 		{"name", func(n int) []byte {
 			return []byte(xmlHead + `<rdf:Description rdf:about="http://e/s"><e:` + big("n", n) + `>v</e:` + big("n", n) + `></rdf:Description></rdf:RDF>`)
-		}},
+		}, nil},
 		{"comment", func(n int) []byte {
 			return []byte(xmlHead + `<!--` + big("c", n) + `--><rdf:Description rdf:about="http://e/s"><e:p>v</e:p></rdf:Description></rdf:RDF>`)
-		}},
+		}, nil},
 		{"cdata", func(n int) []byte {
 			return []byte(xmlHead + `<rdf:Description rdf:about="http://e/s"><e:p><![CDATA[` + big("]", n) + `]]></e:p></rdf:Description></rdf:RDF>`)
-		}},
+		}, nil},
 		{"xmlliteral", func(n int) []byte {
 			return []byte(xmlHead + `<rdf:Description rdf:about="http://e/s"><e:p rdf:parseType="Literal">` + big("<b/>", n) + `</e:p></rdf:Description></rdf:RDF>`)
-		}},
+		}, nil},
 		{"entities", func(n int) []byte {
 			return []byte(xmlHead + `<rdf:Description rdf:about="http://e/s"><e:p>` + big("&amp;", n) + `</e:p></rdf:Description></rdf:RDF>`)
-		}},
+		}, nil},
 	},
 	"ttl": {
-		{"iri", func(n int) []byte { return []byte(`<http://e/` + big("a", n) + `> <http://e/p> 1 .`) }},
-		{"string", func(n int) []byte { return []byte(`<http://e/s> <http://e/p> "` + big("a", n) + `" .`) }},
-		{"long-string", func(n int) []byte { return []byte(`<http://e/s> <http://e/p> """` + big("a\"\n", n) + `""" .`) }},
-		{"pname", func(n int) []byte { return []byte(ttlHead + `:s :p :` + big("a.", n) + `a .`) }},
-		{"bnode-label", func(n int) []byte { return []byte(`_:` + big("b.", n) + `b <http://e/p> 1 .`) }},
-		{"number", func(n int) []byte { return []byte(`<http://e/s> <http://e/p> ` + big("1", n) + ` .`) }},
-		{"comment", func(n int) []byte { return []byte(`#` + big("c", n) + "\n<http://e/s> <http://e/p> 1 .") }},
-		{"whitespace", func(n int) []byte { return []byte(`<http://e/s>` + big(" \t\n", n) + `<http://e/p> 1 .`) }},
-		{"langtag", func(n int) []byte { return []byte(`<http://e/s> <http://e/p> "x"@en` + big("-a", n) + ` .`) }},
-		{"uchar", func(n int) []byte { return []byte(`<http://e/s> <http://e/p> "` + big(`\u00e9`, n) + `" .`) }},
+		{"iri", func(n int) []byte { return []byte(`<http://e/` + big("a", n) + `> <http://e/p> 1 .`) }, nil},
+		{"string", func(n int) []byte { return []byte(`<http://e/s> <http://e/p> "` + big("a", n) + `" .`) }, nil},
+		{"long-string", func(n int) []byte { return []byte(`<http://e/s> <http://e/p> """` + big("a\"\n", n) + `""" .`) }, nil},
+		{"pname", func(n int) []byte { return []byte(ttlHead + `:s :p :` + big("a.", n) + `a .`) }, nil},
+		{"bnode-label", func(n int) []byte { return []byte(`_:` + big("b.", n) + `b <http://e/p> 1 .`) }, nil},
+		{"number", func(n int) []byte { return []byte(`<http://e/s> <http://e/p> ` + big("1", n) + ` .`) }, nil},
+		{"comment", func(n int) []byte { return []byte(`#` + big("c", n) + "\n<http://e/s> <http://e/p> 1 .") }, nil},
+		{"whitespace", func(n int) []byte { return []byte(`<http://e/s>` + big(" \t\n", n) + `<http://e/p> 1 .`) }, nil},
+		{"langtag", func(n int) []byte { return []byte(`<http://e/s> <http://e/p> "x"@en` + big("-a", n) + ` .`) }, nil},
+		{"uchar", func(n int) []byte { return []byte(`<http://e/s> <http://e/p> "` + big(`\u00e9`, n) + `" .`) }, nil},
 	},
 	"nt": {
-		{"iri", func(n int) []byte { return []byte(`<http://e/` + big("a", n) + `> <http://e/p> <http://e/o> .` + "\n") }},
-		{"string", func(n int) []byte { return []byte(`<http://e/s> <http://e/p> "` + big("a", n) + `" .` + "\n") }},
-		{"bnode-label", func(n int) []byte { return []byte(`_:` + big("b.", n) + `b <http://e/p> <http://e/o> .` + "\n") }},
-		{"comment", func(n int) []byte { return []byte(`#` + big("c", n) + "\n<http://e/s> <http://e/p> <http://e/o> .\n") }},
-		{"langtag", func(n int) []byte { return []byte(`<http://e/s> <http://e/p> "x"@en` + big("-a", n) + " .\n") }},
-		{"uchar", func(n int) []byte { return []byte(`<http://e/s> <http://e/p> "` + big(`\u00e9`, n) + "\" .\n") }},
+		{"iri", func(n int) []byte { return []byte(`<http://e/` + big("a", n) + `> <http://e/p> <http://e/o> .` + "\n") }, nil},
+		{"string", func(n int) []byte { return []byte(`<http://e/s> <http://e/p> "` + big("a", n) + `" .` + "\n") }, nil},
+		{"bnode-label", func(n int) []byte { return []byte(`_:` + big("b.", n) + `b <http://e/p> <http://e/o> .` + "\n") }, nil},
+		{"comment", func(n int) []byte { return []byte(`#` + big("c", n) + "\n<http://e/s> <http://e/p> <http://e/o> .\n") }, nil},
+		{"langtag", func(n int) []byte { return []byte(`<http://e/s> <http://e/p> "x"@en` + big("-a", n) + " .\n") }, nil},
+		{"uchar", func(n int) []byte { return []byte(`<http://e/s> <http://e/p> "` + big(`\u00e9`, n) + "\" .\n") }, nil},
 	},
 	"html": {
 		{"text", func(n int) []byte {
 			return []byte(`<html><body vocab="http://v/"><p property="p" itemscope><span itemprop="q">` + big("t", n) + `</span></p></body></html>`)
-		}},
+		}, nil},
 		{"attr", func(n int) []byte {
 			return []byte(`<html><body vocab="http://v/"><p property="p" content="` + big("c", n) + `" itemscope itemid="http://e/` + big("i", n) + `">x</p></body></html>`)
-		}},
+		}, nil},
 		{"property-list", func(n int) []byte {
 			return []byte(`<html><body vocab="http://v/"><p property="` + big("p ", n) + `" itemscope><span itemprop="` + big("q ", n) + `">x</span></p></body></html>`)
-		}},
+		}, nil},
 		{"prefix-list", func(n int) []byte {
 			return []byte(`<html><body prefix="` + big("a: http://a/ ", n) + `"><p property="a:p">x</p></body></html>`)
-		}},
+		}, nil},
 		{"comment", func(n int) []byte {
 			return []byte(`<html><!--` + big("c", n) + `--><body vocab="http://v/"><p property="p">x</p></body></html>`)
-		}},
+		}, nil},
 		{"script", func(n int) []byte {
 			return []byte(`<html><head><script type="application/ld+json">{"http://e/p":"` + big("a", n) + `"}</script></head></html>`)
-		}},
+		}, nil},
 		{"tagname", func(n int) []byte {
 			return []byte(`<html><body><` + big("x", n) + ` property="p" vocab="http://v/">v</body></html>`)
-		}},
+		}, nil},
 		{"xmlliteral", func(n int) []byte {
 			return []byte(`<html><body vocab="http://v/" prefix="rdf: http://www.w3.org/1999/02/22-rdf-syntax-ns#"><p property="p" datatype="rdf:XMLLiteral">` + big("<b>x</b>", n) + `</p></body></html>`)
-		}},
+		}, nil},
 	},
 }
 
@@ -406,4 +537,89 @@ func init() {
 	for _, f := range []string{"rdfa", "microdata", "htmljsonld"} {
 		hugeGens[f] = hugeGens["html"]
 	}
+}
+
+// xmlErrorDocs: grammar-directed documents for the error paths of the RDF/XML decoder: an invalid
+// (or merely unusual) value of each RDF attribute x the ways an attribute can be spelled (double /
+// single quotes, spaces around '=', line breaks inside the tag, character references, duplicate) x
+// the kind of element that carries it (rdf:RDF, node element, typed node, literal / empty /
+// resource-valued / parseType property elements, rdf:li), plus element names that are not allowed
+// in node / property position and directives. Every document is run with text offsets on and off.
+func xmlErrorDocs() []Seed {
+	attrs := []string{"rdf:ID", "rdf:nodeID", "rdf:about", "rdf:resource", "rdf:datatype", "rdf:bagID", "rdf:aboutEach", "rdf:aboutEachPrefix", "rdf:li", "rdf:parseType", "rdf:type", "rdf:Description", "xml:base", "xml:lang", "e:a", "rdf:_1"}
+	values := []string{"", "1bad", "a b", "a:b", "ok", "\u00e9", "http://[", "%zz", "Resource", "Literal", "Collection", nsLangString}
+	spell := []func(a, v string) string{
+		func(a, v string) string { return a + `="` + v + `"` },
+		func(a, v string) string { return a + `='` + v + `'` },
+		func(a, v string) string { return a + ` = "` + v + `"` },
+		func(a, v string) string { return a + "\n=\n'" + v + "'" },
+		func(a, v string) string { return a + `="&#120;` + v + `"` },
+		func(a, v string) string { return a + `="` + v + `" ` + a + `="` + v + `"` }, // duplicate attribute
+	}
+	hosts := []func(at string) string{
+		func(at string) string {
+			return `<rdf:RDF xmlns:rdf="http://www.w3.org/1999/02/22-rdf-syntax-ns#" xmlns:e="http://e/" ` + at + `><rdf:Description rdf:about="http://e/s"><e:p>o</e:p></rdf:Description></rdf:RDF>`
+		},
+		func(at string) string {
+			return xmlHead + `<rdf:Description ` + at + `><e:p>o</e:p></rdf:Description></rdf:RDF>`
+		},
+		func(at string) string { return xmlHead + `<e:T ` + at + ` e:q="v"/></rdf:RDF>` },
+		func(at string) string {
+			return xmlHead + `<rdf:Description rdf:about="http://e/s"><e:p ` + at + `>o</e:p></rdf:Description></rdf:RDF>`
+		},
+		func(at string) string {
+			return xmlHead + `<rdf:Description rdf:about="http://e/s"><e:p ` + at + `/></rdf:Description></rdf:RDF>`
+		},
+		func(at string) string {
+			return xmlHead + `<rdf:Description rdf:about="http://e/s"><e:p ` + at + ` e:q="v"/></rdf:Description></rdf:RDF>`
+		},
+		func(at string) string {
+			return xmlHead + `<rdf:Description rdf:about="http://e/s"><e:p ` + at + `><rdf:Description rdf:about="http://e/o"/></e:p></rdf:Description></rdf:RDF>`
+		},
+		func(at string) string {
+			return xmlHead + `<rdf:Description rdf:about="http://e/s"><e:p rdf:parseType="Resource" ` + at + `><e:q>v</e:q></e:p></rdf:Description></rdf:RDF>`
+		},
+		func(at string) string {
+			return xmlHead + `<rdf:Description rdf:about="http://e/s"><e:p rdf:parseType="Collection" ` + at + `><rdf:Description rdf:about="http://e/o"/></e:p></rdf:Description></rdf:RDF>`
+		},
+		func(at string) string {
+			return xmlHead + `<rdf:Description rdf:about="http://e/s"><e:p rdf:parseType="Literal" ` + at + `><b>x</b></e:p></rdf:Description></rdf:RDF>`
+		},
+		func(at string) string {
+			return xmlHead + `<rdf:Description rdf:about="http://e/s"><rdf:li ` + at + `>o</rdf:li></rdf:Description></rdf:RDF>`
+		},
+	}
+	var out []Seed
+	for ai, a := range attrs {
+		for vi, v := range values {
+			for si, sp := range spell {
+				for hi, h := range hosts {
+					if (ai+vi+si+hi)%3 != 0 && !(v == "" || v == "1bad") { // thinned out; the invalid-name values are run everywhere
+						continue
+					}
+					out = append(out, Seed{Name: fmt.Sprintf("attr:%s=%q/spelling%d/host%d", a, v, si, hi), B: []byte(h(sp(a, v)))})
+				}
+			}
+		}
+	}
+	names := []string{"rdf:RDF", "rdf:ID", "rdf:about", "rdf:parseType", "rdf:resource", "rdf:nodeID", "rdf:datatype", "rdf:li", "rdf:aboutEach", "rdf:aboutEachPrefix", "rdf:bagID", "rdf:Description", "rdf:_1", "rdf:foo", "e:ok"}
+	for _, n := range names {
+		out = append(out,
+			Seed{Name: "node-element:" + n, B: []byte(xmlHead + `<` + n + ` rdf:about="http://e/s"><e:p>o</e:p></` + n + `></rdf:RDF>`)},
+			Seed{Name: "root-node-element:" + n, B: []byte(`<` + n + ` xmlns:rdf="http://www.w3.org/1999/02/22-rdf-syntax-ns#" xmlns:e="http://e/" rdf:about="http://e/s"><e:p>o</e:p></` + n + `>`)},
+			Seed{Name: "property-element:" + n, B: []byte(xmlHead + `<rdf:Description rdf:about="http://e/s"><` + n + `>o</` + n + `></rdf:Description></rdf:RDF>`)},
+			Seed{Name: "empty-property-element:" + n, B: []byte(xmlHead + `<rdf:Description rdf:about="http://e/s"><` + n + ` rdf:resource="http://e/o"/></rdf:Description></rdf:RDF>`)},
+			Seed{Name: "collection-member:" + n, B: []byte(xmlHead + `<rdf:Description rdf:about="http://e/s"><e:p rdf:parseType="Collection"><` + n + `/></e:p></rdf:Description></rdf:RDF>`)},
+			Seed{Name: "nested-node:" + n, B: []byte(xmlHead + `<rdf:Description rdf:about="http://e/s"><e:p><` + n + `/></e:p></rdf:Description></rdf:RDF>`)},
+		)
+	}
+	for i, d := range []string{
+		`<!DOCTYPE rdf:RDF [<!ENTITY e "v">]>` + xmlHead + `</rdf:RDF>`,
+		xmlHead + `<!ELEMENT x ANY><rdf:Description/></rdf:RDF>`,
+		xmlHead + `<rdf:Description><e:p><!DOCTYPE x></e:p></rdf:Description></rdf:RDF>`,
+		`<!-- c -->` + xmlHead + `<?pi x?><rdf:Description><?pi?><e:p>a<?pi?>b<!-- c -->c</e:p></rdf:Description></rdf:RDF><!-- t -->`,
+	} {
+		out = append(out, Seed{Name: fmt.Sprintf("directive:%d", i), B: []byte(d)})
+	}
+	return out
 }
